@@ -26,6 +26,8 @@ TEMPLATES_3D = [
     "mr|mr|cat", "mr|mr|mr", "cat|cai|cac", "cat|cac|cai", "mr|cai|cac", "mr|cac|cai",
     "cai|cac|cat", "cai|cac|mr", "cai|mr|cac", "cac|cat|cai", "cac|mr|cai", "cai|cat|cac",
     "cat_date|cat|cat", "cat|cat_date|mr", "text|cat|cat",
+    # a numeric array grouped by two dimensions: one slice per sub-variable
+    "numarr|cat|cat", "numarr|cat|mr", "numarr|mr|cat", "numarr|mr|mr",
 ]
 
 
